@@ -51,6 +51,7 @@ type Universe struct {
 	initInvs      []*InitInv
 	smapType      *types.Map
 	inlined       map[string]bool // functions inlined into a function under contract during this run
+	nameBase      map[string]*nameBase // recorded parameter/local names (names.go)
 }
 
 func repoDir() string {
@@ -150,6 +151,7 @@ func loadUniverse() (*Universe, error) {
 	if d := os.Getenv("FVC_SPEC"); d != "" {
 		specDir = d
 	}
+	u.loadNameBase(specDir)
 	specs, _ := filepath.Glob(filepath.Join(specDir, "*.fvs"))
 	sort.Strings(specs)
 	for _, sp := range specs {
